@@ -76,7 +76,9 @@ def run(ctx):
            "retries = default if default is not None else cls.DEFAULT" in txt and "if isinstance(retries, Retry):\n        return retries" in txt)
     # the pool hands the policy in effect back on the response (the manager's hop may rely on it)
     mr = m.method(f"{CP}.HTTPConnectionPool", "_make_request")
-    ok = any(isinstance(n, ast.Assign) and astq.text(n.targets[0]) == "response.retries" and astq.text(n.value) == "retries" for n in astq.walk_fn(mr.node))
+    ok = any(isinstance(n, ast.Assign) and isinstance(n.targets[0], ast.Attribute) and n.targets[0].attr == "retries" and astq.text(n.value) == "retries"
+             and any(isinstance(sv, ast.Call) and isinstance(sv.func, ast.Attribute) and sv.func.attr == "getresponse" for sv in astq.sources_of(mr.node, n.targets[0].value))
+             for n in astq.walk_fn(mr.node))
     ctx.ob(R1, mr.qual, "the response carries the policy in effect (response.retries = retries)", ok)
 
     # ------------------------------------------------------------------ R2 followed redirect consumed an increment(response)
